@@ -55,6 +55,19 @@ def gen(rng):
                             e['frames'] = [{'subcategorizationFrame': 'Somebody ----s something'}]
                             break
     ops = [{'k': 'add', 'res': docs.resource(lexs, vs)}, {'k': 'obs'}]
+    provider_gone = False
+    if a.get('requires') and rng.random() < 0.6:
+        # the lexicon a:1 requires is installed (before or after a:1) and removed again before the export:
+        # the <Requires> of a:1 is part of a:1, not of the provider
+        q = g.lexicon('q', '9', vs, n_syn=1, n_ent=1)
+        qop = {'k': 'add', 'res': docs.resource([q], vs)}
+        if rng.random() < 0.5:
+            ops.insert(0, qop)
+        else:
+            ops.append(qop)
+        ops.append({'k': 'remove', 'spec': 'q:9'})
+        ops.append({'k': 'obs'})
+        provider_gone = True
     if rng.random() < 0.35:
         # another version of a:1 is installed side by side (same entity ids) but not exported
         a2 = copy.deepcopy(a)
@@ -109,6 +122,9 @@ def _impl(sc):
                 f = d / f'r{k}.xml'
                 f.write_text(docs.to_xml(op['res']), encoding='utf-8')
                 wn.add(f, progress_handler=None)
+                outs.append({'ok': True})
+            elif op['k'] == 'remove':
+                wn.remove(op['spec'], progress_handler=None)
                 outs.append({'ok': True})
             elif op['k'] == 'obs':
                 outs.append(store.obs_all(wn))
